@@ -731,13 +731,26 @@ def check(ctx):
     with ctx.shared({'C09': 'C05.5'}):
         c09._unsnapshotted(ctx, ctx.index.get_class(K.MASTER, 'Master'))
     _typestate(ctx)
+    from .sched_model import acquire_owner
+    acquire_owner(ctx, 'C05.1')
     _group_removal(ctx)
     _group_sync(ctx)
     _removal_pairing(ctx)
     _model_removal(ctx)
     _range_maintenance(ctx)
     _forced(ctx)
+    # shared with C11.1: the groups exist before the recorded identities are
+    # forced (a group filled afterwards offers the forced identities again)
+    from . import c11
+    loader = ctx.index.get_class(K.LOADER, 'Loader')
+    c11._load_order(ctx, loader, rule='C05.4', only=[
+        ('load_identity_groups', 'restore_placements')])
     _publication(ctx)
+    # shared with C09.1: the first publication of a new master writes again
+    # every placement the start-up cycle changed (server or expiry) - the
+    # identity travels with the record
+    from . import c09
+    c09._startup(ctx, ctx.index.get_class(K.MASTER, 'Master'), rule='C05.5')
 
 
 _S = 'lib/python/treadmill/scheduler/__init__.py'
